@@ -436,6 +436,9 @@ func visitInstr(fr *frame, instr ssa.Instruction) continuation {
 		m := fr.get(instr.Map)
 		key := fr.get(instr.Key)
 		v := fr.get(instr.Value)
+		if isSym(key) {
+			unsup("symbolic map key (update)")
+		}
 		switch m := m.(type) {
 		case map[value]value:
 			m[key] = v
